@@ -86,7 +86,7 @@ class Wavefront:
 
                 # Reference sphere center and radius
                 xc, yc, zc, R = self._get_reference_sphere(pupil_z)
-                opd_ref = self._get_path_length(xc, yc, zc, R)
+                opd_ref = self._get_path_length(xc, yc, zc, R, wavelength)
                 opd_ref = self._correct_tilt(field, opd_ref, x=0, y=0)
 
                 field_data.append(self._generate_field_data(field, wavelength,
@@ -116,7 +116,7 @@ class Wavefront:
         # trace distribution through pupil
         self.optic.trace(*field, wavelength, None, self.distribution)
         intensity = self.optic.surface_group.intensity[-1, :]
-        opd = self._get_path_length(xc, yc, zc, R)
+        opd = self._get_path_length(xc, yc, zc, R, wavelength)
         opd = self._correct_tilt(field, opd)
         return (opd_ref - opd) / (wavelength * 1e-3), intensity
 
@@ -159,7 +159,7 @@ class Wavefront:
 
         return xc, yc, zc, R
 
-    def _get_path_length(self, xc, yc, zc, r):
+    def _get_path_length(self, xc, yc, zc, r, wavelength=None):
         """
         Calculates the optical path difference.
 
@@ -172,8 +172,13 @@ class Wavefront:
         Returns:
             float: The optical path difference.
         """
+        if wavelength is None:
+            wavelength = self.optic.primary_wavelength
+        # index of image space: the path back to the reference sphere is an
+        # optical path
+        n = self.optic.image_surface.material_post.n(wavelength)
         opd = self.optic.surface_group.opd[-1, :]
-        return opd - self._opd_image_to_xp(xc, yc, zc, r)
+        return opd - n * self._opd_image_to_xp(xc, yc, zc, r)
 
     def _correct_tilt(self, field, opd, x=None, y=None):
         """
